@@ -902,6 +902,39 @@ def _eval_code(expr, consts, arg_value):
     return None
 
 
+def _code_reaching(prog, fi, call, known, depth):
+    """value of the MYSETTYPE attribute written when `call` (inside fi, whose parameters have the constant values `known`)
+    is made; None when the call does not lead to such a write or the value is not a constant"""
+    if depth > 3:
+        return None
+    for k in prog.resolve_call(fi, call):
+        callee = prog.functions.get(k)
+        if callee is None:
+            continue
+        params = [p for p in callee.params if p != "self"]
+        vals = {}
+        for i, a in enumerate(call.args):
+            if i < len(params):
+                vals[params[i]] = const_value(a) if const_value(a) is not None else (known.get(a.id) if isinstance(a, ast.Name) else None)
+        for kw in call.keywords:
+            if kw.arg in params:
+                vals[kw.arg] = const_value(kw.value) if const_value(kw.value) is not None else \
+                    (known.get(kw.value.id) if isinstance(kw.value, ast.Name) else None)
+        for a in calls_in(callee.node, name="VMAPAttribute"):
+            if len(a.args) >= 2 and const_value(a.args[0]) == "MYSETTYPE":
+                v = a.args[1]
+                if isinstance(v, ast.Name) and vals.get(v.id) is not None:
+                    return vals[v.id]
+                if const_value(v) is not None:
+                    return const_value(v)
+        for c2 in calls_in(callee.node):
+            if isinstance(c2.func, ast.Attribute) and isinstance(c2.func.value, ast.Name) and c2.func.value.id == "self":
+                r = _code_reaching(prog, callee, c2, vals, depth + 1)
+                if r is not None:
+                    return r
+    return None
+
+
 def _check_set_codes(ctx, prog, W, R, exp_ci, imp_ci):
     # writer: MYSETTYPE value per public set-adding method
     wcodes = {}
@@ -910,21 +943,10 @@ def _check_set_codes(ctx, prog, W, R, exp_ci, imp_ci):
             if name.startswith("add_") and kind in name and "set" in name:
                 fi = defs[-1]
                 for c in calls_in(fi.node):
-                    tg = prog.resolve_call(fi, c)
-                    for k in tg:
-                        callee = prog.functions.get(k)
-                        if callee is None:
-                            continue
-                        # which parameter of the callee flows into VMAPAttribute('MYSETTYPE', <param>)
-                        for a in calls_in(callee.node, name="VMAPAttribute"):
-                            if len(a.args) >= 2 and const_value(a.args[0]) == "MYSETTYPE":
-                                v = a.args[1]
-                                if isinstance(v, ast.Name) and v.id in callee.params:
-                                    idx = [p for p in callee.params if p != "self"].index(v.id)
-                                    if idx < len(c.args):
-                                        wcodes[kind] = (const_value(c.args[idx]), fi, c)
-                                elif const_value(v) is not None:
-                                    wcodes[kind] = (const_value(v), fi, c)
+                    # the constant that flows from this call, through any chain of helpers, into VMAPAttribute('MYSETTYPE', <.>)
+                    code = _code_reaching(prog, fi, c, {}, 0)
+                    if code is not None:
+                        wcodes[kind] = (code, fi, c)
     rcodes = {}
     for kind in ("node", "element"):
         for name, defs in imp_ci.methods.items():
